@@ -191,6 +191,125 @@ func VerifH_SemCancel() {
 	symx.Reach("end")
 }
 
+// C01/H2c': cancellation of the only waiter racing the holder's release, all interleavings: the waiter
+// either holds the key (and releases it) or holds nothing; afterwards the key is free for a writer and,
+// once everybody has released, the map keeps no entry for it (nobody else is queued who would clean up).
+func VerifH_SemCancelAlone() {
+	ratio := symx.Param("ratio", 2)
+	m := verifNewMap(ratio)
+	key := symx.Int("key")
+	ctx := context.Background()
+	holderWrites := symx.Bool("holderWrites")
+	waiterWrites := symx.Bool("waiterWrites")
+	symx.Assume(holderWrites || waiterWrites || ratio == 1) // otherwise the second reader is admitted at once
+	var h0 *Weighted
+	var err error
+	if holderWrites {
+		h0, err = m.AcquireWrite(ctx, key)
+	} else {
+		h0, err = m.AcquireRead(ctx, key)
+	}
+	symx.Assert(err == nil, "holder admitted immediately")
+	wctx := verifNewCtx()
+	var ww *Weighted
+	var werr error
+	tw := symx.Go("waiter", func() {
+		if waiterWrites {
+			ww, werr = m.AcquireWrite(wctx, key)
+		} else {
+			ww, werr = m.AcquireRead(wctx, key)
+		}
+	})
+	symx.WaitQuiescent()
+	symx.Assert(symx.Blocked(tw), "the waiter waits for the holder")
+	symx.Go("releaser", func() {
+		if holderWrites {
+			m.ReleaseWrite(key, h0)
+		} else {
+			m.ReleaseRead(key, h0)
+		}
+	})
+	wctx.cancel()
+	symx.WaitQuiescent()
+	symx.MustFinish(tw, "the cancelled (or admitted) waiter returns")
+	if werr == nil {
+		symx.Assert(ww != nil, "admitted before the cancellation was seen: it holds the key")
+		symx.Assert(verifEntries(m) == 1, "a held key has its entry")
+		if waiterWrites {
+			m.ReleaseWrite(key, ww)
+		} else {
+			m.ReleaseRead(key, ww)
+		}
+	} else {
+		symx.Assert(werr == context.Canceled && ww == nil, "a failed acquire returns its context's error and holds nothing")
+	}
+	symx.Assert(verifEntries(m) == 0, "once every holder has released and nobody waits, the map keeps no entry for the key")
+	w2, err := m.AcquireWrite(ctx, key)
+	symx.Assert(err == nil && w2 != nil, "the key is free again")
+	m.ReleaseWrite(key, w2)
+	symx.Assert(verifEntries(m) == 0, "no residue")
+	symx.Reach("end")
+}
+
+// C01/H2c": an acquire whose context has already ended, on a key nobody uses, on a key with room (one
+// reader of two) and on a key that is full (a writer holds it): it either holds the key - and keeps
+// holding it until its own release - or fails with its context's error and holds nothing; either way a
+// writer gets the key once the holders have released, and then the map keeps no entry for it.
+func VerifH_SemDeadContext() {
+	ratio := symx.Param("ratio", 2)
+	m := verifNewMap(ratio)
+	key := symx.Int("key")
+	ctx := context.Background()
+	dead := verifNewCtx()
+	dead.cancel()
+	var h0 *Weighted
+	var err error
+	holder := symx.Concrete(symx.Int("holder"), 0, 2) // 0 nobody, 1 a reader, 2 a writer
+	switch holder {
+	case 1:
+		h0, err = m.AcquireRead(ctx, key)
+		symx.Assert(err == nil, "reader admitted")
+	case 2:
+		h0, err = m.AcquireWrite(ctx, key)
+		symx.Assert(err == nil, "writer admitted")
+	}
+	wantsWrite := symx.Bool("deadCallerWrites")
+	var wd *Weighted
+	var ed error
+	td := symx.Go("deadCaller", func() {
+		if wantsWrite {
+			wd, ed = m.AcquireWrite(dead, key)
+		} else {
+			wd, ed = m.AcquireRead(dead, key)
+		}
+	})
+	symx.WaitQuiescent()
+	symx.MustFinish(td, "an acquire whose context has ended does not wait")
+	if ed == nil {
+		symx.Assert(wd != nil, "a successful acquire holds the key")
+		symx.Assert(holder == 0 || (holder == 1 && !wantsWrite && ratio >= 2), "admitted only where it fits beside the holders")
+		if wantsWrite {
+			m.ReleaseWrite(key, wd)
+		} else {
+			m.ReleaseRead(key, wd)
+		}
+	} else {
+		symx.Assert(ed == context.Canceled && wd == nil, "a failed acquire returns its context's error and holds nothing")
+	}
+	switch holder {
+	case 1:
+		m.ReleaseRead(key, h0)
+	case 2:
+		m.ReleaseWrite(key, h0)
+	}
+	symx.Assert(verifEntries(m) == 0, "once every holder has released and nobody waits, the map keeps no entry for the key")
+	w2, err := m.AcquireWrite(ctx, key)
+	symx.Assert(err == nil && w2 != nil, "the key is free again")
+	m.ReleaseWrite(key, w2)
+	symx.Assert(verifEntries(m) == 0, "no residue")
+	symx.Reach("end")
+}
+
 // C01/H2d: key independence: a held key never blocks another key.
 func VerifH_SemKeys() {
 	ratio := symx.Param("ratio", 2)
